@@ -607,6 +607,9 @@ func (l *lgen) bigPolygon() geom.Polygon {
 		} else {
 			rings = append(rings, boxRing(0, 0, l.N, l.N))
 			c := 3 + l.r.Intn(4) // holes of any size up to their cell's, one unit inside it
+			if l.N < 24 {
+				c = 3 // a narrow lattice: small cells, or there is no room for many
+			}
 			cells := l.N / c
 			nh := l.bigCount()
 			if nh > cells*cells {
